@@ -91,6 +91,12 @@ impl TXT {
         tokens: I,
     ) -> Result<Self, ParseError> {
         let txt_data = tokens.map(ToString::to_string).collect::<Vec<_>>();
+        // RFC 1035 3.3.14: "One or more <character-string>s."
+        if txt_data.is_empty() {
+            return Err(ParseError::Message(
+                "TXT needs at least one character-string",
+            ));
+        }
         Ok(Self::new(txt_data))
     }
 }
